@@ -1236,6 +1236,15 @@ class Controller:
             )
 
     def on_classic_disconnected(self, peer_address: hci.Address, reason: int) -> None:
+        # The SCO link to this peer goes away with the ACL connection: the host is
+        # told about it before it is told about the connection itself.
+        if sco_link := self.sco_links.get(peer_address):
+            if sco_link.handle:
+                self.on_classic_sco_disconnected(peer_address, reason)
+            else:
+                # Request not answered by the host yet
+                del self.sco_links[peer_address]
+
         # Send a disconnection complete event
         if connection := self.classic_connections.pop(peer_address, None):
             self.send_hci_packet(
